@@ -2157,6 +2157,18 @@ class TagNode(_ElementWrappingNode, NodeBase):
         else:
             node = self
 
+        for step in ast.location_paths[0].location_steps:
+            assert isinstance(step.node_test, NameMatchTest)
+            for prefix in (
+                step.node_test.prefix,
+                *(x[0] for x in step._derived_attributes),
+            ):
+                if prefix and prefix not in namespaces:
+                    raise XPathEvaluationError(
+                        f"The namespace prefix `{prefix}` is unknown in the "
+                        "evaluation context."
+                    )
+
         for i, step in enumerate(ast.location_paths[0].location_steps):
             candidates = tuple(step.evaluate(node_set=(node,), namespaces=namespaces))
 
@@ -2168,16 +2180,6 @@ class TagNode(_ElementWrappingNode, NodeBase):
                         "there can't be a second root."
                     )
                 assert isinstance(node_test, NameMatchTest)
-
-                for prefix in (
-                    node_test.prefix,
-                    *(x[0] for x in step._derived_attributes),
-                ):
-                    if prefix and prefix not in namespaces:
-                        raise XPathEvaluationError(
-                            f"The namespace prefix `{prefix}` is unknown in the "
-                            "evaluation context."
-                        )
 
                 new_node = new_tag_node(
                     local_name=node_test.local_name,
